@@ -549,8 +549,27 @@ fn language_connectives(st: &mut Stats) {
         "x & y", "x and y", "x * y", "x | y", "x or y", "x + y", "x ^ y", "x xor y", "x nor y", "x nand y", "x => y", "x implies y", "x in y", "x <= y", "x <=> y", "x iff y", "x eq y", "-x", "!x", "not x",
         "if x then y else z", "if z then x else y", "x & !y", "-x => -y", "!x <= !y", "not x in not y", "-x implies -y", "-x ^ -y", "-x <=> -y", "-x & -y", "-x | -y", "-x nor -y", "-x nand -y", "-(x & z) => -(y | z)", "-(x | z) <= -(y & z)", "--x => -y", "false <= x", "x <= false", "true => x", "x => true", "false nor x", "true nand x", "false | x", "true & x", "x ^ true", "x <=> false", "if true then x else y", "if false then x else y", "x nand (y nand z)", "x nor (y nor z)", "x nand y nand z", "x nor y nor z", "(x nand y) nand z", "(x nor y) nor z", "x => (y => z)", "(x => y) => z", "x => y => z", "x <= (y <= z)", "x <= y <= z", "x ^ (y ^ z)", "x <=> (y <=> z)", "x & (y & z)", "x | (y | z)", "x nand (y nor z)", "x nor (y nand z)", "(x | y) & -(x & y)", "x <=> (y ^ z)", "(x => y) & (y => z) => (x => z)",
     ];
+    // systematically: the negation OF every connective in every spelling, negated operands and
+    // results inside other connectives, and every ordered pair of connectives in both groupings
+    let mut forms: Vec<String> = forms.iter().map(|s| s.to_string()).collect();
+    let spellings = ["&", "and", "*", "|", "or", "+", "^", "xor", "nor", "nand", "=>", "implies", "in", "<=", "<=>", "iff", "eq"];
+    for s in spellings {
+        for t in ["-(x # y)", "!(x # y)", "not (x # y)", "-(-(x # y))", "-(x # y) # z", "z # -(x # y)", "-(x # -y)", "-(-x # y)", "if -(x # y) then z else (y # x)", "-(if x then y else z) # x", "-((x # y))", "- (x # (y # z))", "-(x # y) & -(y # x)"] {
+            forms.push(t.replace('#', s));
+        }
+    }
+    let ops = ["&", "|", "^", "nor", "nand", "=>", "<=", "<=>"];
+    for a in ops {
+        for b in ops {
+            forms.push(format!("(x {} y) {} z", a, b));
+            forms.push(format!("x {} (y {} z)", a, b));
+            forms.push(format!("x {} y {} z", a, b));
+            forms.push(format!("-(x {} y) {} -(y {} z)", a, b, a));
+            forms.push(format!("-((x {} y) {} z)", a, b));
+        }
+    }
     for ord in orderings {
-        for text in forms {
+        for text in forms.iter().map(|s| s.as_str()) {
             st.evals += 1;
             st.bump("language_connective_forms");
             let case = json!({"kind": "language-connective", "text": text, "ordering": ord.iter().map(|(n, i)| json!([n, i])).collect::<Vec<_>>()});
